@@ -7,6 +7,7 @@ import Driver.MgrOps
 import Driver.IdOps
 import Driver.FlogOps
 import Driver.GateOps
+import Driver.BlockOps
 /-
   Line-protocol driver: one operation per input line, one canonical result line per operation.
   Imports Model only (core Lean), so it links as a `lean_exe`.
@@ -16,6 +17,7 @@ open Driver
 structure St where
   mgr : Dvid.Manager.State := Dvid.Manager.init
   ids : Driver.IdSt := {}
+  blk : Dvid.Block.Block := Driver.emptyBlock
 
 def step (st : St) (line : String) : St × String :=
   let w := words line
@@ -45,6 +47,9 @@ def step (st : St) (line : String) : St × String :=
   | none =>
   match gateOps w with
   | some r => (st, r)
+  | none =>
+  match blockOps st.blk w with
+  | some (b, r) => ({ st with blk := b }, r)
   | none => (st, "bad-op")
 
 partial def loop (h : IO.FS.Stream) (out : IO.FS.Stream) (st : St) : IO Unit := do
